@@ -210,7 +210,9 @@ func genLigMetrics(t *rapid.T) *afm.Metrics {
 			if g.Ligatures == nil {
 				g.Ligatures = map[string]string{}
 			}
-			g.Ligatures[fmt.Sprintf("s%d", rapid.IntRange(0, 30).Draw(t, "succ"))] = fmt.Sprintf("l%d", k)
+			// few distinct ligature glyphs: several successors share one (ties
+			// for any ordering that is not by successor)
+			g.Ligatures[fmt.Sprintf("s%d", rapid.IntRange(0, 30).Draw(t, "succ"))] = fmt.Sprintf("l%d", rapid.IntRange(0, 2).Draw(t, "ligglyph"))
 		}
 		m.Glyphs[name] = g
 		if i < 200 && rapid.Bool().Draw(t, "enc") {
@@ -338,7 +340,7 @@ func buildValues(seed uint64) (fonts []*type1.Font, metrics []*afm.Metrics, cmap
 				if gi.Ligatures == nil {
 					gi.Ligatures = map[string]string{}
 				}
-				gi.Ligatures[fmt.Sprintf("s%d", l.Intn(40))] = fmt.Sprintf("l%d", j)
+				gi.Ligatures[fmt.Sprintf("s%d", l.Intn(40))] = fmt.Sprintf("l%d", l.Intn(3))
 			}
 		}
 		metrics = append(metrics, m)
